@@ -286,6 +286,11 @@ def run(ctx):
     import c08 as _c08
     _c08.rule_S_RESET(ctx)
     _c08.rule_S_FIELDS(ctx)
+    # the enum parser's productions: which keyword is tested / skipped / handed to which sub-parser, which slot is filled (P-SKELETON), in terms of
+    # cursor primitives with exactly their reviewed meaning (P-PRIM)
+    import pskel as _pskel
+    _pskel.rule_P_PRIM(ctx)
+    _pskel.rule_P_SKELETON(ctx)
     ctx.undecided = ["kind(parse(format(v))) = kind(v) for every value (runs into value-dependent parsing, see C01)"]
     ctx.assumptions = ["Vec::is_empty / matches! semantics of std"]
     ctx.trusted = ["rustc HIR/MIR", "mirfacts driver", "python rule layer"]
